@@ -329,6 +329,23 @@ pub struct SeamParams {
 
 pub const SEAM_DIMS: [usize; 10] = [5, 5, 3, 3, 2, 2, 2, 2, 3, 2];
 
+/// Random seam layout outside the exhaustive box: b, a up to 12, tag indent up to 6 units.
+pub fn seam_params_wide(r: &mut Rng, ready: bool) -> SeamParams {
+    SeamParams {
+        b: if r.chance(1, 2) { r.range(5, 12) } else { r.below(5) },
+        a: if r.chance(1, 2) { r.range(5, 12) } else { r.below(5) },
+        flavour: r.below(3),
+        indent: r.below(7),
+        before: r.chance(3, 4),
+        after: r.chance(3, 4),
+        parent: r.chance(1, 3),
+        final_nl: r.chance(1, 2),
+        second: r.below(3),
+        body: r.below(2),
+        ready,
+    }
+}
+
 impl SeamParams {
     pub fn from_index(idx: &[usize], ready: bool) -> SeamParams {
         SeamParams {
@@ -447,6 +464,52 @@ pub struct UnwrapParams {
 pub const UNWRAP_DIMS: [usize; 6] = [7, 5, 3, 4, 2, 4];
 /// indentation units: 2 spaces, 4 spaces, tab, and two mixed ones (space-then-tab, tab-then-space)
 pub const UNITS: [&str; 5] = ["  ", "    ", "\t", " \t", "\t "];
+/// wide units for the "big" documents (9, 17, 40 and 300 columns, 20 tabs)
+pub const WIDE_UNITS: [&str; 5] = [
+    "         ",
+    "                 ",
+    "                                        ",
+    "                                                                                                                                                                                                                                                                                                            ",
+    "\t\t\t\t\t\t\t\t\t\t\t\t\t\t\t\t\t\t\t\t",
+];
+
+/// A "big" document: wide indentation, many siblings, deep nesting, long lines, long blank runs,
+/// pushed down by a filler prefix so that byte offsets and line numbers cross 255 / 4096 /
+/// 65 535 / powers of ten. Returns the pieces; the caller renders them.
+pub fn gen_big_doc(r: &mut Rng, sp: &Sp, inline: bool, unwrap: bool) -> Vec<Piece> {
+    let unit = if r.chance(1, 2) { *r.pick(&WIDE_UNITS) } else { *r.pick(&UNITS) };
+    let mut gc = GenCfg::block(unit);
+    gc.words = words_for(&[sp]);
+    gc.avoid = sp.ds.chars().chain(sp.de.chars()).filter(|c| *c != ' ').collect();
+    gc.big = true;
+    gc.allow_inline = inline;
+    gc.allow_unwrap = unwrap;
+    gc.leading_lb = false;
+    match r.below(3) {
+        0 => {
+            // many siblings, shallow
+            gc.max_items = *r.pick(&[260usize, 600, 1100]);
+            gc.max_depth = 1;
+        }
+        1 => {
+            // deep nesting
+            gc.max_items = 12;
+            gc.max_depth = r.range(5, 9);
+        }
+        _ => {
+            gc.max_items = 40;
+            gc.max_depth = 3;
+        }
+    }
+    let mut d = gen_block_doc(r, &gc);
+    // filler prefix: lines and bytes before the first tag
+    let (n_lines, width) = *r.pick(&[(0usize, 0usize), (0, 0), (254, 3), (999, 2), (4095, 20), (9_998, 4), (70, 1000), (16_400, 3)]);
+    if n_lines > 0 {
+        let line = format!("{}\n", "f".repeat(width));
+        d.insert(0, text(line.repeat(n_lines)));
+    }
+    d
+}
 
 impl UnwrapParams {
     pub fn count() -> u64 {
